@@ -33,20 +33,27 @@ var bigCfg = gen.RandCfg{MaxT: 6, MaxNT: 7, MaxAlt: 3, MaxRhs: 4, Lits: true, Pr
 
 // pickGrammar: families first, then random grammars.
 func pickGrammar(r *rand.Rand, idx int, usable bool, cfg gen.RandCfg) *spec.Grammar {
-	g := pickGrammar0(r, idx, usable, cfg)
-	if idx >= len(families) && idx%9 == 6 {
-		// the start symbol carries yaccgo's default name, so that renderings may omit %start
-		free := true
-		for _, n := range g.NTs {
-			free = free && n.Name != "start"
-		}
-		for _, t := range g.Tokens {
-			free = free && t.Name != "start"
-		}
-		if free {
-			g.NTs[g.Start].Name = "start"
+	return defaultStartName(pickGrammar0(r, idx, usable, cfg), idx)
+}
+
+// defaultStartName gives the start symbol of every ninth generated grammar
+// yaccgo's default name ("start"), so that renderings may omit %start and the
+// user's symbol shares its name with the augmented start symbol.
+func defaultStartName(g *spec.Grammar, idx int) *spec.Grammar {
+	if idx < len(families)+len(escapeFamilies) || idx%9 != 6 {
+		return g
+	}
+	for _, n := range g.NTs {
+		if n.Name == "start" {
+			return g
 		}
 	}
+	for _, t := range g.Tokens {
+		if t.Name == "start" {
+			return g
+		}
+	}
+	g.NTs[g.Start].Name = "start"
 	return g
 }
 
